@@ -289,6 +289,10 @@ class Built:
     pass
 
 
+class RejectedAssignmentChanged(Exception):
+    """A node re-assignment that liesel rejected (RuntimeError) nevertheless changed the target variable."""
+
+
 def build(desc, x64=False, flip_per_obs=None, initial=None, mistakes=None):
     """Build the liesel model.  flip_per_obs: set of names whose per_obs is flipped.
     initial: dict name -> value (original scale) to start from."""
@@ -371,7 +375,9 @@ def build(desc, x64=False, flip_per_obs=None, initial=None, mistakes=None):
         except RuntimeError:
             n_rej += 1
         if tgt.dist_node is not own_d or tgt.value_node is not own_v:
-            raise AssertionError(f"rejected {what}-node assignment changed {tgt_name}")
+            raise RejectedAssignmentChanged(f"the rejected assignment {tgt_name}.{what}_node = {src_name}.{what}_node left {tgt_name} with "
+                                            f"another {what} node ({(tgt.dist_node if what == 'dist' else tgt.value_node)!r} instead of "
+                                            f"{(own_d if what == 'dist' else own_v)!r})")
     for o in objs.values():
         gb.add(o)
     b = Built()
